@@ -245,6 +245,8 @@ mod bwk;
 pub use bwk::*;
 
 mod time;
+#[cfg(biscuit_verif)]
+pub use time::verif_clock;
 
 /// Procedural macros to construct Datalog policies
 #[cfg(feature = "datalog-macro")]
